@@ -70,8 +70,8 @@ def load_contract_module(path):
 
 
 class Loaded:
-    def __init__(self, repo_root=None):
-        self.repo = Repo(repo_root)
+    def __init__(self, repo_root=None, overlay=None):
+        self.repo = Repo(repo_root, overlay)
         self.contracts, self.specs, self.consts = [], {}, {}
         self.files = sorted(glob.glob(os.path.join(CONTRACT_DIR, '*.py')))
         self.field_types, self.globals_decl = {}, {}
